@@ -822,6 +822,10 @@ func (tic *TermInCommittee) HandleNewView(nvm *interfaces.NewViewMessage) {
 
 		// rewrite this mess
 		latestVoteBlockHash := latestVote.SignedHeader().PreparedProof().PreprepareBlockRef().BlockHash()
+		if !latestVoteBlockHash.Equal(ppMessageContent.SignedHeader().BlockHash()) {
+			tic.logger.Info("LHMSG RECEIVED NEW_VIEW IGNORE - NewView.Preprepare block hash differs from the block hash of the latest prepared proof")
+			return
+		}
 		if latestVoteBlockHash != nil {
 			isValidDigest := tic.blockUtils.ValidateBlockCommitment(nvmHeader.BlockHeight(), nvm.Block(), latestVoteBlockHash)
 			if !isValidDigest {
